@@ -36,9 +36,9 @@ def run_case(case):
 
 def cases(tier, seed):
 	rnd = random.Random(seed)
-	thr = [None, .2, .5]
+	thr = [None, 0.0, .2, .5]
 	for taxa in chains(3 if tier == 'quick' else 4, thr, (True, False) if tier != 'quick' else (True,)):
-		for d in (.1, .2, .3, .5, .6):
+		for d in (0.0, .1, .2, .3, .5, .6):
 			yield {'taxa': taxa, 'genomes': [0], 'dists': [d]}
 	for taxa in chains(3, [None, .5], (True, False)):
 		yield {'taxa': taxa, 'genomes': [0], 'dists': [.3]}
@@ -47,7 +47,7 @@ def cases(tier, seed):
 		taxa = random_forest(rnd, n)
 		ng = rnd.randrange(1, 7)
 		genomes = [rnd.randrange(n) for _ in range(ng)]
-		dists = [rnd.choice([.1, .3, .5, .5, .7, .9, 0.0, 1.0, rnd.random()]) for _ in range(ng)]
+		dists = [rnd.choice([.1, .3, .5, .5, .7, .9, 0.0, 0.0, 1.0, rnd.random()]) for _ in range(ng)]
 		yield {'taxa': taxa, 'genomes': genomes, 'dists': dists}
 
 
